@@ -57,22 +57,36 @@ def main():
     if st:
         print("refusing: /repo is dirty:\n" + st)
         return 2
-    a = sh(f"git -C /repo apply {patch}")
+    # SEED_SCRATCH=<dir>: apply the change to a scratch copy instead of /repo itself (needed while
+    # something else reads /repo, e.g. a mutation sweep); CPUS pins the checks to some cores
+    scratch = os.environ.get("SEED_SCRATCH")
+    pin = f"taskset -c {os.environ['CPUS']} " if os.environ.get("CPUS") else ""
+    envp = ""
+    if scratch:
+        sh(f"rm -rf {scratch} && mkdir -p {scratch} && rsync -a --exclude .git --exclude __pycache__ --exclude docs "
+           f"--exclude benchmarks /repo/ {scratch}/")
+        a = sh(f"cd {scratch} && patch -p1 --fuzz=0 --no-backup-if-mismatch -s < {patch}")
+        envp = f"REPID_TREE={scratch} MC_OUT={scratch}.out "
+    else:
+        a = sh(f"git -C /repo apply {patch}")
     if a.returncode != 0:
-        print("patch does not apply to /repo HEAD:", a.stderr)
+        print("patch does not apply to /repo HEAD:", a.stderr, a.stdout)
         return 2
     results = {}
     try:
         for c in checks:
-            r = sh(f"cd /verif && VERIF_TIER={tier} ./check {c} {tier}")
+            r = sh(f"cd /verif && {envp}VERIF_TIER={tier} {pin}./check {c} {tier}")
             viols = re.findall(r"^VIOLATION property=(\S+)", r.stdout, re.M)
             sigs = re.findall(r"signature=([^\]]+)\]", r.stdout)
             results[c] = dict(exit=r.returncode, violations=len(viols), signatures=sorted(set(sigs))[:8],
                               tail=r.stdout.strip().splitlines()[-1:] + r.stderr.strip().splitlines()[-2:])
             print(c, "exit", r.returncode, "violations", len(viols), sorted(set(sigs))[:4])
     finally:
-        sh("git -C /repo checkout -- .")
-        sh("cd /verif && git checkout -- evidence 2>/dev/null")
+        if scratch:
+            sh(f"rm -rf {scratch} {scratch}.out")
+        else:
+            sh("git -C /repo checkout -- .")
+            sh("cd /verif && git checkout -- evidence 2>/dev/null")
     meta_out = dict(meta)
     meta_out.update(dict(name=name, confirmed_by_me=confirm or "see earlier run", checks_run={
         c: dict(tier=tier, exit=v["exit"], violations=v["violations"], signatures=v["signatures"]) for c, v in results.items()},
